@@ -208,13 +208,36 @@ def run(ctx):
         if len(fl) == 1:
             util_field = next(iter(fl))
     regret_slots = None      # how the two regrets are stored: ('array', field) or ('fields', {names})
+    # player_regret() selecting from the stored pair: by PlayerNum::ind, or by a match on the player number
+    pr_sel, pr_field = {}, None
+    g = lib.one('StrategiesInfo::player_regret')
+    if g is not None:
+        r = strip_refs(q.ret_expr(g))
+        if q.is_call(r, 'ind') and len(r[2]) == 2 and strip_refs(r[2][0])[0] == 'param':
+            fl = q.find_sub(r[2][1], lambda x: x[0] == 'field' and strip_refs(x[1])[0] == 'param')
+            pr_field = fl[2] if fl is not None else None
+        else:
+            for bi, cs, v in q.multi_def_values(g, 0):
+                pl = [c for c in cs if c['kind'] == 'variant' and len(c['variants']) == 1 and c['variants'][0] in ('One', 'Two')]
+                v = strip_refs(v)
+                if pl and v[0] == 'cidx' and strip_refs(v[1])[0] == 'field' and strip_refs(strip_refs(v[1])[1])[0] == 'param':
+                    pr_sel[pl[-1]['variants'][0]] = (strip_refs(v[1])[2], v[2])
+            if set(pr_sel) == {'One', 'Two'} and len({x[0] for x in pr_sel.values()}) == 1 and {x[1] for x in pr_sel.values()} == {0, 1}:
+                pr_field = pr_sel['One'][0]
+            else:
+                pr_sel = {}
     f = ctx.fn('lib', 'StrategiesInfo::regret', rule)
     if f is not None:
         r = strip_refs(q.ret_expr(f))
         ok = q.is_call(r, 'max') and 'f64' in r[1] and len(r[2]) == 2
         if ok:
             args = [strip_refs(a) for a in r[2]]
-            if {tuple(sorted(q.tags(a))) for a in args} == {(0,), (1,)} and all(a[0] in ('cidx', 'index') and strip_refs(a[1])[0] == 'field' for a in args) and len({strip_refs(a[1])[2] for a in args}) == 1:
+            via = [a for a in args if q.is_call(a, 'player_regret') and len(a[2]) == 2 and strip_refs(a[2][0])[0] == 'param'
+                   and strip_refs(a[2][1])[0] == 'agg' and strip_refs(a[2][1])[1] in ('adt:PlayerNum::One', 'adt:PlayerNum::Two')]
+            if len(via) == 2 and {strip_refs(a[2][1])[1] for a in via} == {'adt:PlayerNum::One', 'adt:PlayerNum::Two'} and pr_field is not None:
+                # max(self.player_regret(One), self.player_regret(Two)): the stored pair, read through the accessor
+                regret_slots = ('array', pr_field)
+            elif {tuple(sorted(q.tags(a))) for a in args} == {(0,), (1,)} and all(a[0] in ('cidx', 'index') and strip_refs(a[1])[0] == 'field' for a in args) and len({strip_refs(a[1])[2] for a in args}) == 1:
                 regret_slots = ('array', strip_refs(args[0][1])[2])
             elif all(a[0] == 'field' and strip_refs(a[1])[0] == 'param' for a in args) and len({a[2] for a in args}) == 2 and util_field not in {a[2] for a in args}:
                 regret_slots = ('fields', {a[2] for a in args})
@@ -234,7 +257,12 @@ def run(ctx):
                 v = strip_refs(v)
                 if pl and v[0] == 'field' and strip_refs(v[1])[0] == 'param':
                     sel[pl[-1]['variants'][0]] = v[2]
-            if regret_slots is not None and regret_slots[0] == 'fields' and set(sel) == {'One', 'Two'} and set(sel.values()) == regret_slots[1]:
+            if pr_sel and regret_slots is not None and regret_slots == ('array', pr_field):
+                # a match on the player number over the stored pair: position k is player k+1 (C01.regret-form)
+                good = pr_sel['One'][1] == 0 and pr_sel['Two'][1] == 1
+                ctx.verdict(good, rule, rule + ':player_regret', 'a player\'s regret is selected by that player\'s number', f.where(0),
+                            'One -> .%s[%d], Two -> .%s[%d]' % (pr_sel['One'] + pr_sel['Two']), breaks='each player is reported the other player\'s regret')
+            elif regret_slots is not None and regret_slots[0] == 'fields' and set(sel) == {'One', 'Two'} and set(sel.values()) == regret_slots[1]:
                 ctx.ok(rule, rule + ':player_regret', 'a player\'s regret is selected by that player\'s number', f.where(0), 'One -> .%s, Two -> .%s (the two stored regrets, one each)' % (sel['One'], sel['Two']))
                 ctx.anchor_lost(rule, 'StrategiesInfo: which stored regret belongs to which player', 'per-player fields instead of the pair: the field <-> player correspondence through regret() is not followed')
             else:
